@@ -14,7 +14,12 @@ class RemovePass(SuiteTransformer):
         return self.visit(node)
 
     def suite(self, node_list, parent):
-        without_pass = [self.visit(a) for a in filter(lambda n: not isinstance(n, ast.Pass), node_list)]
+        remaining = list(filter(lambda n: not isinstance(n, ast.Pass), node_list))
+        without_pass = [self.visit(a) for a in remaining]
+
+        if self.becomes_docstring(node_list, remaining, parent):
+            # Keep the string statement out of the docstring position
+            without_pass.insert(0, self.add_child(ast.Expr(value=ast.Num(0)), parent=parent))
 
         if len(without_pass) == 0:
             if isinstance(parent, ast.Module):
